@@ -524,6 +524,34 @@ def _run_scenario(res, sc, concrete=None):
     res.sample({"operation": sc["name"], "engine": sc["engine"]})
 
 
+def _w_represent(item):
+    """get_measurements_representing_distribution on an UNNORMALISED distribution with symbolic weights (C13's harness,
+    only the argument-unchanged clause)."""
+    from . import c13
+
+    res = Result(f"op|{item['label']}")
+    try:
+        c13._w_represent(res, item)
+    except ST.Inconclusive as e:
+        res.ob(1)
+        res.inconc(str(e))
+    d = res.as_dict()
+    # raising paths are not examined by C20 (an unnormalised argument can make the corrections step refuse)
+    dropped = [c for c in d["candidates"] if c["clause"] != "distribution-unchanged"]
+    d["candidates"] = [c for c in d["candidates"] if c["clause"] == "distribution-unchanged"]
+    d["obligations"] -= len(dropped)
+    for c in d["candidates"]:
+        c["clause"] = "unchanged-after-call"
+        c["inputs"] = {"represent": item, "clause": "unchanged-after-call", "values": c["inputs"].get("values", {})}
+    return d
+
+
+REPRESENT = [
+    {"keys": [[0], [1]], "N": 1, "unnormalised": True, "label": "representing distribution, unnormalised weights over 2 outcomes, N=1"},
+    {"keys": [[0, 0], [0, 1], [1, 1]], "N": 1, "unnormalised": True, "label": "representing distribution, unnormalised weights over 3 outcomes, N=1"},
+]
+
+
 def _w_ground(item):
     """ground: operations whose arguments cannot be symbolic here (numpy integer kernels, file I/O, real sampling)."""
     name = item
@@ -566,8 +594,16 @@ def ground_bad(name):
         if name == "get_parities_from_measurements":
             return check({"shots": [(0, 1), (1, 1), (0, 0)], "op": op}, lambda o: get_parities_from_measurements(o["shots"], o["op"]).values.tolist())
         if name == "representing_distribution":
+            import warnings as _w
+
             d = MOD({(0, 0): 0.3, (0, 1): 0.45, (1, 1): 0.25})
-            return check({"dist": d}, lambda o: sorted(Measurements.get_measurements_representing_distribution(o["dist"], 7).bitstrings))
+            bad = check({"dist": d}, lambda o: sorted(Measurements.get_measurements_representing_distribution(o["dist"], 7).bitstrings))
+            if bad:
+                return bad
+            with _w.catch_warnings():
+                _w.simplefilter("ignore")
+                d2 = MOD({(0, 0): 0.3, (1, 1): 0.3}, normalize=False)
+            return check({"dist": d2}, lambda o: len(Measurements.get_measurements_representing_distribution(o["dist"], 5).bitstrings))
         if name == "save_distribution":
             d = MOD({(0, 0): 0.3, (0, 1): 0.7})
             return check({"dist": d}, lambda o: save_measurement_outcome_distribution(o["dist"], f))
@@ -646,6 +682,8 @@ def run(ctx):
     for it, out in pmap(work, items):
         ctx.merge(out)
     if not getattr(ctx, "only", None):
+        for it, out in pmap(_w_represent, REPRESENT if ctx.tier == "thorough" else REPRESENT[:1]):
+            ctx.merge(out)
         for it, out in pmap(_w_ground, GROUND_NAMES):
             ctx.merge(out)
     ctx.extra["explanation"] = (
@@ -661,6 +699,10 @@ def replay(data):
         if "ground" in inp:
             bad = ground_bad(inp["ground"])
             return bool(bad), bad or "ok"
+        if "represent" in inp:
+            d = _w_represent(inp["represent"])
+            c = d["candidates"]
+            return bool(c), (c[0]["what"] if c else "no violation on re-execution")
         # re-execute the scenario symbolically: a mutation is structural or tied to a path; re-running the same
         # harness against the real code is the faithful reproduction
         os.environ["VERIF_C20_TIER"] = "thorough"
